@@ -73,10 +73,12 @@ ALLOWED = {
     "TemplateStream._buffered_generator": {"next": (StopIteration,)}, "TemplateStream.__next__": {"*": ()},
     "TemplateStream.dump": {"*": ()}, "TemplateStream.dump[encoding]": {"*": ()},
     "BlockReference.__call__": {"*": ()}, "BlockReference.__call__[async]": {"*": ()},
-    "LoopContext.__next__": {"*": ()}, "LoopContext._peek_next": {"*": ()}, "LoopContext.length": {"len": (TypeError,), "iter": ()},
+    "LoopContext.__next__": {"*": ()}, "LoopContext._peek_next": {"*": ()}, "LoopContext.length": {"len": (), "iter": ()},
     "AsyncLoopContext.__anext__": {"next": (StopAsyncIteration,)}, "AsyncLoopContext._peek_next": {"next": (StopAsyncIteration,)},
-    "AsyncLoopContext.length": {"len": (TypeError,), "iter": ()},
-    "AsyncLoopContext._known_length": {"len": (TypeError,)},
+    # hunt j2/C38_2: `except TypeError` around len(self._iterable) also catches a TypeError raised by the data's own __len__
+    # (TypeError is no documented signal and loop.length is no capability test) - same ruling as for the reverse filter
+    "AsyncLoopContext.length": {"len": (), "iter": ()},
+    "AsyncLoopContext._known_length": {"len": ()},
     "TemplateExpression.__call__": {"*": ()}, "TemplateExpression.__call__[async]": {"*": ()},
     "Macro.__call__": {"*": ()},
     "do_last": {"*": (StopIteration,)}, "do_first": {"*": (StopAsyncIteration,)},
@@ -432,7 +434,7 @@ class LoopAttr(FaultVC):
     def __init__(self, cls, attr, method="getattr"):
         self.cls, self.attr, self.method = cls, attr, method
         fn = f"{cls.__name__}.{method}[loop.{attr}]"
-        ALLOWED.setdefault(fn, {"getattr": (AttributeError,), "getitem": LOOKUP, "next": (), "iter": (), "len": (TypeError,)})
+        ALLOWED.setdefault(fn, {"getattr": (AttributeError,), "getitem": LOOKUP, "next": (), "iter": (), "len": ()})
         FaultVC.__init__(self, fn, f"jinja2.{'sandbox' if cls is SB.SandboxedEnvironment else 'environment'}:{cls.__name__}.{method}")
         self.expect_sites = ("len",) if attr in ("length", "revindex", "revindex0") else ("next",)
 
@@ -2026,16 +2028,23 @@ HISTORY_TEMPLATES = {
 }
 
 
+class BoomStop(StopIteration):
+    """private StopIteration subclass raised by the data (e.g. next() on an exhausted iterator inside a property / __str__)"""
+
+
 class Clock:
     """counts the data events of one render and raises a private exception object at the k-th"""
+    exc_class = None
 
-    def __init__(self, fail_at=None):
+    def __init__(self, fail_at=None, exc_class=None):
         self.fail_at, self.n, self.raised = fail_at, 0, None
+        self.exc_class = exc_class or Clock.exc_class or Boom
 
     def tick(self, what):
         self.n += 1
         if self.n == self.fail_at:
-            self.raised = Boom(f"event {self.n}: {what}")
+            self.raised = self.exc_class(f"event {self.n}: {what}")
+            self.what = what
             raise self.raised
 
 
@@ -2110,16 +2119,24 @@ def history_case(enable_async, first, way_name, k, warm, expected=None):
     box[0] = clock = Clock(fail_at=k)
     try:
         out = ways[way_name](env.get_template(first))
-    except Boom as e:
-        if e is not clock.raised:
-            problems.append("a different exception object was raised")
     except BaseException as e:  # noqa: B902
-        problems.append(f"raised {type(e).__name__}: {e} instead of the data's exception")
+        if e is clock.raised:
+            pass
+        elif clock.exc_class is BoomStop and clock.raised is not None and clock.what.startswith("call "):
+            pass  # the documented signal: StopIteration from a callable becomes undefined (any outcome of that is not judged here)
+        else:
+            problems.append(f"raised {type(e).__name__}: {e} instead of the data's exception")
     else:
-        if clock.raised is not None:
+        if clock.raised is not None and clock.exc_class is BoomStop and clock.what.startswith("call "):
+            pass  # documented: StopIteration from a callable becomes an undefined value
+        elif clock.raised is not None:
             problems.append(f"the data's exception ({clock.raised}) was lost, output {out!r}")
         elif out != expected[first]:
             problems.append(f"clean output {out!r} != {expected[first]!r}")
+    if clock.exc_class is BoomStop and clock.raised is not None and (clock.what.startswith("call ") or clock.what == "iter"):
+        # StopIteration from a CALLABLE is the documented signal (it becomes an undefined value); the "iter" event of the stand-in
+        # lives in a generator function of the data, where the interpreter itself (PEP 479) replaces it: neither is judged here
+        return []
     box[0] = Clock()
     for n in HISTORY_TEMPLATES:  # the data is healthy again: every family member renders as in a fresh environment
         try:
@@ -2132,7 +2149,17 @@ def history_case(enable_async, first, way_name, k, warm, expected=None):
     return problems
 
 
-def native_history(tier, seed):
+def native_history(tier, seed, exc_class=None):
+    import time
+    res = []
+    Clock.exc_class = exc_class
+    try:
+        return _native_history(tier, seed, "" if exc_class is None else "_" + exc_class.__name__)
+    finally:
+        Clock.exc_class = None
+
+
+def _native_history(tier, seed, label):
     import time
     res = []
     for enable_async in (False, True):
@@ -2158,8 +2185,9 @@ def native_history(tier, seed):
                         cases += 1
                         ps = history_case(enable_async, first, way_name, k, warm, expected)
                         if ps:
-                            bad.append(({"kind": "history", "async": enable_async, "first": first, "way": way_name, "k": k, "warm": warm}, ps[0]))
-        nm = f"C38.native.history[{mode}]"
+                            bad.append(({"kind": "history", "async": enable_async, "first": first, "way": way_name, "k": k, "warm": warm,
+                                         "exc": (Clock.exc_class or Boom).__name__}, ps[0]))
+        nm = f"C38.native.history{label}[{mode}]"
         if bad:
             wit = dict(bad[0][0], failing=sorted({f"{b[0]['first']}/{b[0]['way']}" for b in bad}))
             res.append(Res(nm, "refuted", "native", time.time() - t0, f"{len(bad)}/{cases} fault sequences: [{mode}] {bad[0][0]['way']}({bad[0][0]['first']!r}) fault at event "
@@ -2181,15 +2209,88 @@ class NativeHistory(Task):
                   "same object, and afterwards every template of the family must render exactly as in a fresh environment")
 
     def run(self, tier, seed):
-        return native_history(tier, seed)
+        # second sweep: the data's exception is a StopIteration subclass raised at an attribute / item / str / iterator event (the
+        # documented StopIteration signal is that of a CALLABLE only)
+        return native_history(tier, seed) + native_history(tier, seed, BoomStop)
 
     def replay(self, w):
-        ps = history_case(w["async"], w["first"], w["way"], w["k"], w.get("warm", False))
+        Clock.exc_class = BoomStop if w.get("exc") == "BoomStop" else None
+        try:
+            ps = history_case(w["async"], w["first"], w["way"], w["k"], w.get("warm", False))
+        finally:
+            Clock.exc_class = None
         return (bool(ps), f"[{'async' if w['async'] else 'sync'}] {w['way']}({w['first']!r}) fault at event {w['k']}: " + ("; ".join(ps[:3]) or "ok"))
 
     def finding_key(self, res):
         w = res.witness or {}
         return ",".join(w.get("failing", []))
+
+
+# --------------------------------------------------------------------------------------------
+# C38.lazy_map: builtin map() / filter() over a function that runs data code (AST scan of src/jinja2/*.py)
+# --------------------------------------------------------------------------------------------
+# map(f, seq) lets a StopIteration raised by f escape from its __next__; every consumer ("".join, sum, list, a for loop) takes
+# that for the end of the iteration.  So a StopIteration raised by the data inside f (a __str__, a property read by an
+# attrgetter) silently truncates the result instead of propagating (hunt j2/C38_1).  Every map()/filter() call must therefore map
+# a function that runs no data code (listed in LAZY_MAP_OK with the reason) - the others are refuted.
+LAZY_MAP_OK = {
+    "compiler:": "compile time: names of the template's own variables",
+    "parser:": "parse time: token descriptions for an error message",
+    "environment:Template.debug_info": "the compiler's own debug info string (pairs of integers)",
+    "exceptions:TemplatesNotFound.__init__": "names of the templates that were tried, for the error message (Undefined names were replaced by their message before)",
+}
+
+
+def scan_lazy_maps():
+    import ast
+    import glob
+    import os
+    found = {}
+    for path in sorted(glob.glob(os.path.join(os.path.dirname(jinja2.__file__), "*.py"))):
+        mod = os.path.basename(path)[:-3]
+        tree = ast.parse(open(path, encoding="utf-8").read())
+
+        def walk(node, qual):
+            for c in ast.iter_child_nodes(node):
+                q = qual + [c.name] if isinstance(c, (ast.FunctionDef, ast.AsyncFunctionDef, ast.ClassDef)) else qual
+                if isinstance(c, ast.Call) and isinstance(c.func, ast.Name) and c.func.id in ("map", "filter") and c.args:
+                    found.setdefault(f"{mod}:{'.'.join(qual) or '<module>'}", []).append(ast.unparse(c.args[0]))
+                walk(c, q)
+
+        walk(tree, [])
+    return found
+
+
+def lazy_map_table(task, tier, seed):
+    res = []
+    for key, fns in sorted(scan_lazy_maps().items()):
+        why = next((v for k, v in LAZY_MAP_OK.items() if key == k or (k.endswith(":") and key.startswith(k))), None)
+        nm = f"C38.lazy_map.{key.replace(':', '.')}"
+        if why:
+            res.append(Res(nm, "discharged", "table", 0, why, "table"))
+        else:
+            res.append(Res(nm, "refuted", "table", 0, f"map()/filter() over {fns}: the mapped function runs data code (str / soft_str / attribute getter); a StopIteration "
+                                                      "raised there ends the iteration silently", "table", {"kind": "lazy_map", "site": key, "mapped": fns}))
+    return res
+
+
+class LazyMapTable(Task):
+    kind = "table"
+    prop = "C38"
+    name = "C38.lazy_map"
+
+    def run(self, tier, seed):
+        return lazy_map_table(self, tier, seed)
+
+    def replay(self, w):
+        for r in native_history("quick", 0, BoomStop):
+            if r.status == "refuted":
+                return (True, f"{w.get('site')}: {r.detail}")
+        return (False, f"{w.get('site')}: no fault sequence with a StopIteration subclass fails")
+
+    def finding_key(self, res):
+        w = res.witness or {}
+        return f"{w.get('site')}:{'|'.join(w.get('mapped', []))}"
 
 
 class NativeMatrix(Task):
@@ -2231,7 +2332,7 @@ MEMBERS = [
     LoopAttrGroup(E.Environment), LoopAttrGroup(SB.SandboxedEnvironment),
     LoopAttrGroup(E.Environment, "getitem"), LoopAttrGroup(SB.SandboxedEnvironment, "getitem"),
     *[LookupSignals(c, m) for c in (E.Environment, SB.SandboxedEnvironment) for m in ("getattr", "getitem")],
-    HandlerTable(), NativeMatrix(), NativeHistory(),
+    HandlerTable(), LazyMapTable(), NativeMatrix(), NativeHistory(),
 ]
 
 
